@@ -173,6 +173,41 @@ def Data.step (dt : Data) : Ev → Data
 
 def runEvents (dt : Data) (evs : List Ev) : Data := evs.foldl Data.step dt
 
+/-! ### the hypotheses of `use_links_referenced` (evaluated by the driver on the event sequence of every real dump) -/
+
+/-- the (address, declaration) pair a declaration event registers -/
+def Ev.pair? : Ev → Option (Addr × Decl)
+  | .varDecl a t o => some (a, ⟨.var, t, o⟩)
+  | .funcDecl a t o => some (a, ⟨.func, t, o⟩)
+  | .enumDecl a t o => some (a, ⟨.enumr, t, o⟩)
+  | .scopeDecl a o => some (a, ⟨.scope, 0, o⟩)
+  | _ => none
+
+/-- the token an event writes on or registers -/
+def Ev.tok? : Ev → Option Nat
+  | .varDecl _ t _ | .funcDecl _ t _ | .enumDecl _ t _ | .ref _ t => some t
+  | _ => none
+
+def declPairs (evs : List Ev) : List (Addr × Decl) := evs.filterMap Ev.pair?
+def evToks (evs : List Ev) : List Nat := evs.filterMap Ev.tok?
+def varObjs (evs : List Ev) : List Nat := evs.filterMap fun e => match e with | .varDecl _ _ o => some o | _ => none
+/-- the tokens that look an address up, in order -/
+def refToks (evs : List Ev) (a : Addr) : List Nat := evs.filterMap fun e => match e with | .ref b t => if b = a then some t else none | _ => none
+def isReplace : Ev → Bool
+  | .replace _ _ => true
+  | _ => false
+
+/-- every clang address is declared at most once -/
+def addrsUnique (evs : List Ev) : Prop := ((declPairs evs).map (·.1)).Nodup
+/-- every event has a token of its own (`addtoken` creates it just before) -/
+def toksFresh (evs : List Ev) : Prop := (evToks evs).Nodup
+/-- every variable declaration has a Variable object of its own -/
+def objsFresh (evs : List Ev) : Prop := (varObjs evs).Nodup
+
+instance (evs : List Ev) : Decidable (addrsUnique evs) := by unfold addrsUnique; infer_instance
+instance (evs : List Ev) : Decidable (toksFresh evs) := by unfold toksFresh; infer_instance
+instance (evs : List Ev) : Decidable (objsFresh evs) := by unfold objsFresh; infer_instance
+
 /-! ## Part 2: the importer -/
 
 structure NodeRec where
@@ -204,18 +239,31 @@ inductive Err where
   | hang
 deriving Repr
 
+/-- one `x->astOperand1(t)` / `x->astOperand2(t)` call -/
+structure SetOp where
+  side : AstStore.Side
+  x : Nat
+  t : Option Nat
+deriving Repr
+
+def SetOp.toOp (o : SetOp) : AstStore.Op :=
+  match o.side with
+  | .one => .o1 o.x o.t
+  | .two => .o2 o.x o.t
+
 structure St where
   nodes : Array NodeRec := #[]
   files : List Str := []
   toks : Array Tok := #[]
   back : Option Nat := none       -- tokenList.back()
-  ops : Array AstStore.Op := #[]
+  ops : Array SetOp := #[]       -- the importer touches the AST only through `astOperand1` / `astOperand2`
   data : Data := {}
   funcs : Array Func := #[]
   nVars : Nat := 0
   nEnums : Nat := 0
   nScopes : Nat := 0
   events : Array Ev := #[]        -- the declaration-map events in program order (for the evidence / theorem tie)
+  memberFixed : Bool := false     -- model of the repaired MemberExpr branch (proposed/C35-member-flag.diff), chosen by the check
 
 abbrev M := StateT St (Except Err)
 
@@ -374,8 +422,8 @@ def backIs (ss : List String) : M Bool := do
 def setLink (a b : Nat) : M Unit :=
   modify fun st => { st with toks := (st.toks.modify a (fun t => { t with link := some b })).modify b (fun t => { t with link := some a }) }
 
-def op1 (x : Nat) (t : Option Nat) : M Unit := modify fun st => { st with ops := st.ops.push (.o1 x t) }
-def op2 (x : Nat) (t : Option Nat) : M Unit := modify fun st => { st with ops := st.ops.push (.o2 x t) }
+def op1 (x : Nat) (t : Option Nat) : M Unit := modify fun st => { st with ops := st.ops.push ⟨.one, x, t⟩ }
+def op2 (x : Nat) (t : Option Nat) : M Unit := modify fun st => { st with ops := st.ops.push ⟨.two, x, t⟩ }
 
 def emitEv (e : Ev) : M Unit := modify fun st => { st with data := st.data.step e, events := st.events.push e }
 
@@ -911,11 +959,17 @@ def createTokens (fuel : Nat) (i : Nat) : M (Option Nat) :=
     if nt == "MemberExpr" then
       let s ← createTokens fuel (← child0)
       let dot ← addtoken self ['.']
-      let sp ← getSpelling self
+      -- `… ->name 0xaddr [flag]`: the current code takes the last two fields (`getSpelling()`, `mExtTokens.back()`); the repaired code
+      -- looks for the address first
+      let sz := self.ext.length
+      let addrIndex := scanDown self.ext (fun t => !startsWith t "0x") 1 (sz + 1) ((sz : Int) - 1)
+      let fixed := (← get).memberFixed
+      let sp ← (do if fixed then (if addrIndex ≥ 1 then extAt self (addrIndex.toNat - 1) else pure []) else getSpelling self)
       let mn0 := if startsWith sp "->" then sp.drop 2 else if startsWith sp "." then sp.drop 1 else sp
       let mn := if mn0.isEmpty then lit "<unknown>" else mn0
       let member ← addtoken self mn
-      emitEv (.ref (← extBack self) member)
+      let addr ← (do if fixed then (if addrIndex ≥ 0 then extAt self addrIndex.toNat else failM (.ub "mExtTokens[addrIndex] in MemberExpr")) else extBack self)
+      emitEv (.ref addr member)
       op1 dot s
       op2 dot (some member)
       return some dot
@@ -1136,14 +1190,14 @@ def sizeofCleared (live : List (Nat × Tok)) : List Nat := sizeofScan false live
 def isBracket (s : Str) : Bool := s == ['('] || s == [')'] || s == ['['] || s == [']'] || s == ['{'] || s == ['}']
 
 /-- `parseClangAstDump` up to and including the link validation; `file0` = the file the TokenList already knows -/
-def importDump (file0 : Str) (text : Str) (sizeofFixed : Bool := false) : Except Err Imported :=
-  match (lineLoop (splitLines text) []).run { files := [file0] } with
+def importDump (file0 : Str) (text : Str) (sizeofFixed : Bool := false) (memberFixed : Bool := false) : Except Err Imported :=
+  match (lineLoop (splitLines text) []).run { files := [file0], memberFixed := memberFixed } with
   | .error e => .error e
   | .ok (_, st) =>
     -- "Validation": every bracket token has a link
     if (st.toks.toList.filter (fun t => !t.deleted)).any (fun t => isBracket t.str && t.link.isNone) then .error (.internal "link-not-set")
     else
-      match runOps (AstStore.init st.toks.size) st.ops.toList with
+      match runOps (AstStore.init st.toks.size) (st.ops.toList.map SetOp.toOp) with
       | .error e => .error e
       | .ok store =>
         let enumName := fun o => (st.events.toList.findSome? fun e => match e with | .enumDecl _ t o' => if o' = o then some t else none | _ => none)
@@ -1151,7 +1205,7 @@ def importDump (file0 : Str) (text : Str) (sizeofFixed : Bool := false) : Except
         let cleared := if sizeofFixed then [] else sizeofCleared live
         let attrs := fun i => if cleared.contains i then { st.data.attrs i with ptr := none } else st.data.attrs i
         .ok { toks := st.toks, store := store, attrs := attrs, varDef := st.data.varDef, funcs := st.funcs,
-              ops := st.ops.toList, events := st.events.toList, enumName := enumName }
+              ops := st.ops.toList.map SetOp.toOp, events := st.events.toList, enumName := enumName }
 
 /-! ## Part 3: the invariant checker run on the token list the REAL importer produced
 
